@@ -505,6 +505,50 @@ def pad_splits(res, tier, okx):
     return {"cases": len(model), "decisions": dict(dec)}
 
 
+def avgpool_kernels(res, tier, okx):
+    """correspondence of model/Rewrites.v diag_plane with convert_avg_pool_to_conv2d: the kernel written for an average pool
+    with stride >= 4 (ones on the channel diagonal at every window position, scale 1 / (h * w), zero point 0)"""
+    import tempfile
+    n = 40 if tier == "quick" else 600
+    rng = random.Random("c01avg/%d" % vlib.seed())
+    cases = []
+    for _ in range(n):
+        k = rng.choice([1, 2, 3, 4, 4, 5])
+        st = rng.choice([4, 4, 5, 6, 2, 3])
+        cases.append([rng.randrange(max(k, st), 14), rng.randrange(max(k, st), 14), rng.choice([1, 2, 3, 7, 8, 16]), k, st, 1 if rng.random() < 0.3 else 0])
+    tmp = tempfile.mkdtemp(prefix="c01avg_", dir=vlib.BUILD)
+    cj, oj = os.path.join(tmp, "cases.json"), os.path.join(tmp, "out.json")
+    json.dump(cases, open(cj, "w"))
+    p = subprocess.run([vlib.PY, os.path.join(vlib.ROOT, "tools", "rewrite_worker.py"), cj, oj, "avgconv"], env=vlib.py_env({"VERIF_TMP": tmp}),
+                       capture_output=True, text=True, timeout=3000)
+    if p.returncode != 0 or not os.path.exists(oj):
+        res.violation({"machinery": "rewrite worker (avgconv)"}, {"stderr": p.stderr[-1500:]},
+                      "C01: convert_avg_pool_to_conv2d could not be run on generated average pools", no_input=True)
+        return {"cases": 0}
+    impl = json.load(open(oj))
+    shutil.rmtree(tmp, ignore_errors=True)
+    conv = [(c, o) for c, o in zip(cases, impl) if o["converted"]]
+    model = models.run("diag_plane", [[c[2]] for c, o in conv]) if okx and conv else []
+    bad = 0
+    for (c, o), m in zip(conv, model):
+        want_scale = float(np.float32(1 / (c[3] * c[3]))).hex()
+        ok = (o["shape"] == [c[3], c[3], c[2], c[2]] and o["same_plane_everywhere"] and o["plane"] == m and o["zero_point"] == 0
+              and o["scale"] == want_scale and c[4] >= 4)
+        if not ok and bad < 5:
+            bad += 1
+            res.violation({"kind": "avgpool_kernel", "case": c},
+                          {"case [h, w, c, k, stride, uint8]": c, "implementation": o, "model plane (row = input channel)": m, "scale wanted": want_scale},
+                          "C01: convert_avg_pool_to_conv2d on a %dx%d average pool with stride %d over %d channels writes a kernel other than the "
+                          "proved one (props/C01.v diagonal_kernel_keeps_channels_apart): the convolution is not the pool" % (c[3], c[3], c[4], c[2]))
+    left = [c for c, o in zip(cases, impl) if not o["converted"]]
+    for c in left:
+        if c[4] >= 4 and bad < 5:
+            bad += 1
+            res.violation({"kind": "avgpool_not_converted", "case": c}, {"case": c},
+                          "C01: an average pool with stride %d was not converted (the hardware has no such stride)" % c[4])
+    return {"cases": len(cases), "converted": len(conv), "left alone (stride <= 3)": len(left)}
+
+
 def run(tier):
     res = vlib.Result("C01", tier, "other")
     b = vlib.build_property("C01")
@@ -513,6 +557,7 @@ def run(tier):
     rw_cov = rewrite_decisions(res, tier, okm and b["ok"])
     rw_cov["widened_kernels"] = widened_kernels(res, tier, okm and b["ok"])
     rw_cov["pad_splits"] = pad_splits(res, tier, okm and b["ok"])
+    rw_cov["avgpool_kernels"] = avgpool_kernels(res, tier, okm and b["ok"])
     n = 470 if tier == "quick" else 3400
     max_macs = 1200000 if tier == "quick" else 30000000
     rng = random.Random("c01/%d" % vlib.seed())
